@@ -1,7 +1,7 @@
 //! craft: write a (possibly hostile) PNA archive from a small text spec, for the extraction checks
 //! (C09 crafted archives).   usage: craft <spec.tsv> <out.pna>
 //! One entry per spec line, tab separated:
-//!     mode  kind  namehex  datahex  perm  mtime
+//!     mode  kind  namehex  datahex  perm  mtime  [xattrs]
 //!   mode  = api : the entry is built with libpna's public API (EntryBuilder + EntryName::from_lossy /
 //!                 EntryReference::from_lossy).  Names are sanitised by the constructor; link targets keep
 //!                 their root and `..` (that is what EntryReference does), so hostile *targets* are expressible.
@@ -12,9 +12,10 @@
 //!   data  = file content, or the link target / hard-link source
 //!   perm  = `-` or a decimal mode (fPRM chunk with uid/gid 0, user/group "root")
 //!   mtime = `-` or decimal seconds (mTIM chunk)
+//!   xattrs = optional; `-` or  namehex=valuehex;…  (xATR chunks; api mode only, any entry kind)
 //! The archive is  PNA magic ‖ AHED(0,0,0) ‖ entries… ‖ AEND.
 use libpna::prelude::*;
-use libpna::{Archive, EntryBuilder, EntryName, EntryReference, Permission, WriteOptions};
+use libpna::{Archive, EntryBuilder, EntryName, EntryReference, ExtendedAttribute, Permission, WriteOptions};
 use pnaverif::util::unhex;
 use std::io::{self, Write};
 use std::time::Duration;
@@ -37,7 +38,7 @@ fn perm_of(mode: u16) -> Permission {
 
 /// all bytes of a one-entry archive written through the public API, without the
 /// magic, the AHED chunk (8 + 20 bytes) and the trailing AEND chunk (12 bytes)
-fn api_entry(kind: u8, name: &[u8], data: &[u8], perm: Option<u16>, mtime: Option<u64>) -> io::Result<Vec<u8>> {
+fn api_entry(kind: u8, name: &[u8], data: &[u8], perm: Option<u16>, mtime: Option<u64>, xattrs: &[(String, Vec<u8>)]) -> io::Result<Vec<u8>> {
     let name = EntryName::from_lossy(String::from_utf8_lossy(name).into_owned());
     let target = || EntryReference::from_lossy(String::from_utf8_lossy(data).into_owned());
     let mut b = match kind {
@@ -55,6 +56,9 @@ fn api_entry(kind: u8, name: &[u8], data: &[u8], perm: Option<u16>, mtime: Optio
     }
     if let Some(t) = mtime {
         b.modified(Duration::from_secs(t));
+    }
+    for (k, v) in xattrs {
+        b.add_xattr(ExtendedAttribute::new(k.clone(), v.clone()));
     }
     let e = b.build()?;
     let mut a = Archive::write_header(Vec::new())?;
@@ -104,8 +108,17 @@ fn main() -> io::Result<()> {
         let data = unhex(f[3]).ok_or_else(|| io::Error::other("data hex"))?;
         let perm = if f[4] == "-" { None } else { Some(f[4].parse::<u16>().map_err(io::Error::other)?) };
         let mtime = if f[5] == "-" { None } else { Some(f[5].parse::<u64>().map_err(io::Error::other)?) };
+        let mut xattrs = Vec::new();
+        if f.len() > 6 && f[6] != "-" && !f[6].is_empty() {
+            for kv in f[6].split(';') {
+                let (k, v) = kv.split_once('=').ok_or_else(|| io::Error::other("xattr spec"))?;
+                let k = unhex(k).ok_or_else(|| io::Error::other("xattr name hex"))?;
+                let v = unhex(v).ok_or_else(|| io::Error::other("xattr value hex"))?;
+                xattrs.push((String::from_utf8_lossy(&k).into_owned(), v));
+            }
+        }
         match f[0] {
-            "api" => out.extend(api_entry(kind, &name, &data, perm, mtime)?),
+            "api" => out.extend(api_entry(kind, &name, &data, perm, mtime, &xattrs)?),
             "raw" => out.extend(raw_entry(kind, &name, &data, perm, mtime)),
             m => return Err(io::Error::other(format!("bad mode {m:?}"))),
         }
